@@ -154,6 +154,7 @@ type fnCtx struct {
 	specErrors   []string
 	lemmaName    string
 	callOrds     map[ssa.Instruction]int
+	waivedUsed   []string
 	recMeasures  []string
 	heapElemTy   map[string]types.Type
 	alloc0       string
@@ -595,6 +596,13 @@ func (fc *fnCtx) oblige(st *State, kind string, ordKey string, goal string, desc
 	claimed := explicit
 	if !explicit && t.contract != nil && t.contract.NoPanic {
 		claimed = true
+	}
+	if t.contract != nil && t.contract.Waived != nil {
+		if why, ok := t.contract.Waived[name]; ok {
+			claimed = false
+			desc += " [not claimed: " + why + "]"
+			t.waivedUsed = append(t.waivedUsed, t.funcName()+"#"+name+": "+why)
+		}
 	}
 	o := &Obligation{Name: full, Func: t.funcName(), Kind: kind, Explicit: explicit, Claimed: claimed,
 		Desc: desc, PC: st.pc, Goal: goal, fc: t}
